@@ -18,6 +18,7 @@
 // instance counter per object, the destructor runs of THIS step, release()'s result, v == w.
 #include "c20_common.h"
 
+#include <algorithm>
 #include <memory>
 #include <optional>
 #include <type_traits>
@@ -55,6 +56,8 @@ struct Heap
   int doubles = 0;         // destructor runs on an object that is not alive
   int unknown = 0;
   size_t pending_size = 0;
+  bool any_allowed = true;        // teardown / std world: every destruction is recorded, none ends the process
+  std::vector<int> allowed;       // objects the specification lets die in the current step
 };
 Heap *g_heap = nullptr;
 
@@ -80,6 +83,15 @@ struct Base
           {
             g_shm->died[g_shm->ndied] = r.id;
             g_shm->ndied              = g_shm->ndied + 1;
+          }
+          if (h->world == 0 && !h->any_allowed &&
+              std::find(h->allowed.begin(), h->allowed.end(), r.id) == h->allowed.end())
+          {
+            // destroyed too early: the instance counter decides, whatever a sanitizer would say next
+            if (g_shm->natural_left > 0)
+              g_shm->natural_left = g_shm->natural_left - 1;
+            else
+              _exit(43);
           }
         }
         else
@@ -572,6 +584,14 @@ void run_world(const Case &c)
     {
       g_shm->ndied = 0;
       g_shm->step  = static_cast<long>(k);
+      w->heap.allowed.clear();
+      for (auto &x : sts[k]["exp"]["died"])
+        w->heap.allowed.push_back(x.get<int>());
+      if (sts[k].contains("alts"))
+        for (auto &a : sts[k]["alts"])
+          for (auto &x : a["died"])
+            w->heap.allowed.push_back(x.get<int>());
+      w->heap.any_allowed = false;
     }
     try
     {
@@ -583,6 +603,7 @@ void run_world(const Case &c)
       clean = false;
       break;
     }
+    w->heap.any_allowed = true;
     g_shm->steps++;
     json obs  = w->observe(sts[k]);
     Verdict v = judge(c, static_cast<int>(k), sts[k], obs, Fam::name(), no_wild);
